@@ -283,6 +283,13 @@ func c06(c *Ctx) {
 		scs = append(scs, LifeScenario{Cause: "close", Closers: 1, Flood: true, Track: tr, ConnectAgain: "early"})
 		tags = append(tags, "connect-again")
 	}
+	// the peer has stopped reading for good: a line is in flight inside the socket write, more are queued, a handler may be
+	// blocked on the queue; Close / cancellation must still complete (closing the socket is what releases the write)
+	for _, cause := range []string{"close", "cancel"} {
+		scs = append(scs, LifeScenario{Cause: cause, Closers: 1, Flood: true, UseCtx: true, SlowServer: true, PeerStalled: true, OutBacklog: 60, OutFrom: "user"},
+			LifeScenario{Cause: cause, Closers: 1, Flood: true, UseCtx: true, SlowServer: true, PeerStalled: true, OutBacklog: 60, OutFrom: "handler"})
+		tags = append(tags, "peer-stalled-for-good/"+cause, "peer-stalled-for-good/"+cause)
+	}
 	// flood protection ON and saturated: the send goroutine sits in a hold, the queue is full, a handler is blocked on it,
 	// and then the connection ends (context cancelled, Close, EOF): the teardown still happens, once
 	for _, cause := range []string{"cancel", "close", "eof"} {
@@ -401,6 +408,13 @@ func c07(c *Ctx) {
 		}
 		scs = append(scs, sc)
 		tags = append(tags, tag)
+	}
+	// the peer has stopped reading for good: a line is in flight inside the socket write, more are queued, a handler may be
+	// blocked on the queue; Close / cancellation must still complete (closing the socket is what releases the write)
+	for _, cause := range []string{"close", "cancel"} {
+		scs = append(scs, LifeScenario{Cause: cause, Closers: 1, Flood: true, UseCtx: true, SlowServer: true, PeerStalled: true, OutBacklog: 60, OutFrom: "user"},
+			LifeScenario{Cause: cause, Closers: 1, Flood: true, UseCtx: true, SlowServer: true, PeerStalled: true, OutBacklog: 60, OutFrom: "handler"})
+		tags = append(tags, "peer-stalled-for-good/"+cause, "peer-stalled-for-good/"+cause)
 	}
 	// flood protection ON and saturated: the send goroutine sits in a hold, the queue is full, a handler is blocked on it,
 	// and then the connection ends (context cancelled, Close, EOF): the teardown still happens, once
